@@ -7,7 +7,7 @@ from ..common import Names, rat
 from ..genlog import huntington_hill
 
 PROP = "C14"
-LEAN_MODULE = "VK.Props.C14"
+LEAN_MODULE = "VK.Props.C14RunAll"
 THEOREMS = [
     "VK.C14_pool_total",
     "VK.C14_pool_weights_pos_int",
@@ -21,6 +21,18 @@ THEOREMS = [
     "VK.C14_fill_nodup",
     "VK.C14_sort_perm",
     "VK.C14_hh_total",
+    "VK.Gen.expectChoice_spec",
+    "VK.Gen.expectChoiceU_spec",
+    "VK.Gen.expectApportion_spec",
+    "VK.Gen.C14_runPL",
+    "VK.Gen.C14_runCumulative",
+    "VK.Gen.C14_runBT",
+    "VK.Gen.C14_runBTmcmc",
+    "VK.Gen.C14_runAC",
+    "VK.Gen.C14_runCambridge",
+    "VK.Gen.C14_runSlatePL",
+    "VK.Gen.C14_runSlateBT",
+    "VK.Gen.C14_run_all_bloc_kinds",
 ]
 RULE = ("cases = random parameter sets for all 16 generator paths (ImpartialCulture, ImpartialAnonymousCulture, BallotSimplex "
         "from point, name/short-name PlackettLuce, name BradleyTerry exact + MCMC, slate BradleyTerry exact + MCMC, "
@@ -46,9 +58,13 @@ EXPLANATION = ("Theorems (every number of ballots / candidates / blocs): countin
                "lists exactly ballot_length candidates in the short model; cumulative score ballots distribute exactly "
                "num_votes points on drawn candidates; filling a slate pattern with per-slate orders yields a "
                "duplicate-free complete ranking; the stable distance sort is a permutation; the Huntington-Hill "
-               "specification hands out exactly N seats.")
+               "specification hands out exactly N seats. End to end over the replay layer (partial-correctness triples for "
+               "StateT (List Call) (Except String)): for each of the ten bloc generator kinds, whatever log of primitive "
+               "calls Gen.run accepts, the returned profile has total weight exactly N, positive whole weights, and is the "
+               "sum of the per-bloc profiles; an accepted Plackett-Luce draw is duplicate-free and inside the positive "
+               "support, an accepted apportionment adds up to N.")
 
-N_QUICK, N_THOROUGH = 2400, 80000
+N_QUICK, N_THOROUGH = 2400, 28800
 
 _TMP = None
 
